@@ -28,6 +28,7 @@ type c14Shared struct {
 	wl    *spg.WordList
 	w     *spg.WLRecipe
 	w2    *spg.WLRecipe
+	w3    *spg.WLRecipe
 	sf    spg.SFFunction
 }
 
@@ -48,6 +49,9 @@ func newC14Shared() *c14Shared {
 	x.w2.Capitalize = spg.CSRandom
 	x.w2.SeparatorFunc = spg.SFDigits1
 	x.sf = spg.NewSFFunction(spg.CharRecipe{Length: 1, AllowChars: "xy", RequireSets: []string{"z"}})
+	x.w3 = spg.NewWLRecipe(2, wl)
+	x.w3.Capitalize = spg.CSAll
+	x.w3.SeparatorFunc = x.sf
 	return x
 }
 
@@ -105,6 +109,12 @@ var c14Scenarios = []c14Scenario{
 	{"sf()||sf() (constructed separator function)", [][]string{{"sf()"}, {"sf()"}}},
 	{"two calls each: Generate,Entropy || Generate,Alphabet", [][]string{{"c.Generate", "c.Entropy"}, {"c.Generate", "c.Alphabet"}}},
 	{"SFDigits1()||w.Generate", [][]string{{"SFDigits1()"}, {"w.Generate"}}},
+	{"three threads Generate on one character recipe", [][]string{{"c.Generate"}, {"c.Generate"}, {"c.Generate"}}},
+	{"Entropy||Entropy||SuccessProbability (same character recipe)", [][]string{{"c.Entropy"}, {"c.Entropy"}, {"c.SuccessProbability"}}},
+	{"Alphabet||Alphabet", [][]string{{"c.Alphabet"}, {"c.Alphabet"}}},
+	{"WL two calls each: Generate,Generate || Generate,Entropy", [][]string{{"w.Generate", "w.Generate"}, {"w.Generate", "w.Entropy"}}},
+	{"w3.Generate (uses sf) || sf()", [][]string{{"w3.Generate"}, {"sf()"}}},
+	{"w3.Generate || w3.Entropy || w.Generate", [][]string{{"w3.Generate"}, {"w3.Entropy"}, {"w.Generate"}}},
 }
 
 // per-thread tape policies: thread 0's first candidate fails the requirement
@@ -324,7 +334,7 @@ func init() {
 		ID:    "C14",
 		Level: "model_checking",
 		Build: "race",
-		Rule: "9 scenarios of 2-3 threads x 1-2 calls on shared CharRecipe, WLRecipe, WordList, constructed and preset separator functions; scheduling points before every statement of package spg and at every lock operation of golang-set (instrumented copy, -race build); ALL schedules with at most 1 deviation from the default schedule (quick; thorough: at most 2 on every two-thread scenario) are executed by a controlled scheduler whose hand-offs are invisible to the race detector; " +
+		Rule: "15 scenarios of 2-3 threads x 1-2 calls on shared CharRecipe, WLRecipe, WordList, constructed and preset separator functions; scheduling points before every statement of package spg and at every lock operation of golang-set (instrumented copy, -race build); ALL schedules with at most 1 deviation from the default schedule (quick; thorough: at most 2 on every two-thread scenario) are executed by a controlled scheduler whose hand-offs are invisible to the race detector; " +
 			"every schedule starts from freshly built shared values (lazily initialised state is cold); oracle per schedule: every call returns what it returns alone on the same random stream, shared values unchanged, no deadlock, race detector silent; non-trivial = distinct (scenario, switches, results) observations",
 		Assume:  []string{"bounded deviations (preemptions and non-default thread choices both cost 1)", "memory-model effects beyond what the race detector flags are not modelled", "helper goroutines spawned by golang-set's Iter() talk only to their spawner and run free"},
 		Run:     c14Run,
